@@ -53,14 +53,19 @@ Definition k_zone_round_col (c : column) (o : cmpop) (q : value) : bool :=
   | OpLt | OpGt => existsb is_big_int (q :: col_values c) && existsb is_float (q :: col_values c)
   | _ => false
   end.
-(** K5: [Ne] pruning on a column holding a non-null value of another type than the query value, or a NaN *)
+(** K5: [Ne] pruning on a column that holds -- or whose min/max bounds still hold -- a non-null value
+    of another type than the query value, or a NaN *)
 Definition odd_for_ne (q x : value) : bool :=
   negb (is_null x) && (negb (vtag x =? vtag q) || match x with VFloat b => f64_is_nan b | _ => false end).
 Definition k_zone_ne_col (c : column) (o : cmpop) (q : value) : bool :=
   match o with
-  | OpNe => existsb (odd_for_ne q) (map snd (c_vals c))
+  | OpNe => existsb (odd_for_ne q) (col_values c)
   | _ => false
   end.
+(** K4 for a range lookup: a strict bound is pruned through the same comparison *)
+Definition k_range_round_col (c : column) (lo hi : option value) (li hi_i : bool) : bool :=
+  (match lo with Some l => negb li && k_zone_round_col c OpGt l | None => false end)
+  || (match hi with Some h => negb hi_i && k_zone_round_col c OpLt h | None => false end).
 (** C14-K7: a label was added/removed while the statistics were considered fresh; the next
     refresh does not recompute *)
 Definition op_label_unflagged (s : state) (o : op) : bool :=
